@@ -5,6 +5,7 @@ from random import shuffle
 
 import torch
 
+from leaspy.exceptions import LeaspyAlgoInputError
 from leaspy.io.data import Dataset
 from leaspy.io.outputs.individual_parameters import IndividualParameters
 from leaspy.models import McmcSaemCompatibleModel
@@ -52,6 +53,12 @@ class McmcPersonalizeAlgorithm(
         model: McmcSaemCompatibleModel,
         dataset: Dataset,
     ) -> IndividualParameters:
+        if self.algo_parameters["n_burn_in_iter"] >= self.algo_parameters["n_iter"]:
+            raise LeaspyAlgoInputError(
+                f"The burn-in phase ({self.algo_parameters['n_burn_in_iter']} iterations) should be "
+                f"strictly shorter than the number of iterations ({self.algo_parameters['n_iter']}): "
+                "no sample would be kept to estimate the individual parameters."
+            )
         individual_variable_names = sorted(
             list(model.dag.sorted_variables_by_type[IndividualLatentVariable])
         )
